@@ -278,6 +278,36 @@ def run_mixed(desc):
             except Exception as e:
                 out.violation({'mode': 'mixed', 'call': label, 'error': type(e).__name__, 'problem': 'mixed str/bytes call raised something else'},
                               bucket=('mixed-exc', label))
+    # is_magic() and escape() are text-type blind: drive / UNC spellings and every metacharacter, all subsets of the flags that make
+    # further characters magic
+    shapes = ['a', 'a*', 'a?', '[a]', 'a\\b', '\\\\server\\share', '\\\\server\\share\\file.txt', 'c:\\temp/file', '//?/c:\\temp', '//server/share/x',
+              'c:/x', 'c:\\', '\\\\?\\UNC\\server\\share\\x', 'a{b', 'a|b', '~a', '!a', '-a', '@(a)', 'a/b', '\\\\server\\sh{a}re', 'c:\\te|mp', '//server/sh*re/x',
+              '\\\\ser*ver\\share', 'a b', '', '\\', 'c:', '\\\\']
+    mflags = [G.BRACE, G.SPLIT, G.GLOBTILDE, G.NEGATE, G.MINUSNEGATE, G.EXTGLOB]
+    for plat in (G.FORCEWIN, G.FORCEUNIX, 0):
+        for i in range(1 << len(mflags)):
+            fl = plat
+            for j, b in enumerate(mflags):
+                if i >> j & 1:
+                    fl |= b
+            for t in shapes:
+                out.evaluations += 1
+                try:
+                    a, b = G.is_magic(t, flags=fl), G.is_magic(t.encode(), flags=fl)
+                    ffl = fl & ~(G.GLOBTILDE)
+                    c, d = F.is_magic(t, flags=ffl), F.is_magic(t.encode(), flags=ffl)
+                except Exception as e:
+                    out.violation({'mode': 'is_magic', 'text': t, 'flags': fl, 'problem': 'is_magic raised ' + type(e).__name__}, bucket=('is-magic-exc',))
+                    continue
+                if a != b or c != d:
+                    out.violation({'mode': 'is_magic', 'text': t, 'flags': fl, 'glob': [a, b], 'fnmatch': [c, d],
+                                   'problem': 'is_magic() answers differently for the bytes spelling of a text'}, bucket=('is-magic', t))
+        for t in shapes:
+            for unix in (None, True, False):
+                out.evaluations += 1
+                if G.escape(t, unix=unix).encode() != G.escape(t.encode(), unix=unix):
+                    out.violation({'mode': 'is_magic', 'text': t, 'unix': unix, 'problem': 'escape() differs between str and bytes'}, bucket=('escape', t))
+    out.nontrivial(('is_magic', len(shapes)))
     out.sample({'mode': 'mixed', 'calls': sorted(calls)})
     return out
 
@@ -452,7 +482,7 @@ def replay(case):
     if m == 'highbytes':
         r = run_highbytes({})
         return (not r.violations), [v[2] for v in r.violations][:3]
-    if m == 'mixed':
+    if m in ('mixed', 'is_magic'):
         r = run_mixed({})
         return (not r.violations), [v[2] for v in r.violations][:3]
     if m == 'fs':
